@@ -213,6 +213,9 @@ func Delivery(mb int, o Op) *message.Delivery {
 // Do runs one operation and returns its projected result.
 func (s *Sess) Do(o Op) string {
 	switch o.Kind {
+	case "R":
+		s.Reopen()
+		return "-"
 	case "C":
 		s.Cap = o.Rep
 		s.Reopen()
